@@ -42,8 +42,14 @@ SameConforms(ev) ==
   /\ \A k \in 1..Len(ev.copies) : ev.copies[k] = ev.copies[1]
   /\ ParseOutcome(ev.copies[1]).ok /\ Len(ev.copies[1]) = ImpliedLength(ev.copies[1])
 
+\* production-sized mapping: the copies are compared where they are produced (length and a 64-bit digest)
+SameBigConforms(ev) ==
+  /\ Len(ev.lens) >= 4 /\ Len(ev.digests) = Len(ev.lens)
+  /\ \A k \in 1..Len(ev.lens) : ev.lens[k] = ev.lens[1] /\ ev.digests[k] = ev.digests[1]
+
 Conforms(ev) ==
-  CASE ev.t = "written" -> WrittenConforms(ev)
+  CASE ev.t = "samebig" -> SameBigConforms(ev)
+    [] ev.t = "written" -> WrittenConforms(ev)
     [] ev.t = "parse" -> ParseConforms(ev)
     [] ev.t = "same" -> SameConforms(ev)
 
